@@ -27,6 +27,7 @@ Holds(o) ==
   \* operations agree with the algebra
   /\ o.add = Add(o.x, o.y) /\ o.add_yx = Add(o.y, o.x) /\ o.add3 = Add(Add(o.x, o.y), o.z)
   /\ o.mut_add3 = Add(Add(o.x, o.y), o.z)                       \* in-place accumulation agrees with addition
+  /\ o.mut_add_xy = Add(o.x, o.y) /\ o.y_intact                 \* ... also into a vector the caller built (immutable scalar leaves); the addend is never written to
   /\ o.fresh /\ o.x_intact                                      \* accumulating into 'nothing' is fresh; arguments untouched
   /\ o.smul = SMul(o.x, o.a)
   /\ o.inner = Inner(o.x, o.y) /\ o.inner_yx = o.inner /\ o.inner_real
